@@ -359,7 +359,9 @@ theorem unop_refines (O : FloatOps F C) (op : String) (a : NNum F C) :
   · simp [coerce_eq_roundWith O Rat.floor Rat.floor (fun _ => rfl) Rat.floor_intCast]
   · simp [coerce_eq_roundWith O Rat.ceil Rat.ceil (fun _ => rfl) Rat.ceil_intCast]
   · simp [coerce_eq_roundWith O ratRound roundHalfAway ratRound_eq roundHalfAway_intCast]
-  · simp [coerce_eq_roundWith O ratTrunc trunc ratTrunc_eq trunc_intCast]
+  · rw [coerce_eq_roundWith O ratTrunc trunc ratTrunc_eq trunc_intCast]
+    cases a <;> simp [roundWith, realView]
+    rename_i f; cases O.view f <;> simp
   · cases a <;> simp [toRationalExact, realView]
     rename_i f; cases O.view f <;> simp
   · cases a <;> simp [toFloat, toF]
@@ -675,9 +677,29 @@ theorem rounding_exact (O : FloatOps F C) (a : NNum F C) (q : Rat) (hq : value O
 /-- non-finite floats stay what they are; complex numbers are rejected -/
 theorem rounding_nonfinite (O : FloatOps F C) (f : F) (h : ∀ q, O.view f ≠ .fin q) :
     NNum.unop O "floor" (.float f : NNum F C) = .ok (.float f) ∧
-    NNum.unop O "int" (.float f : NNum F C) = .ok (.float f) := by
+    NNum.unop O "ceil" (.float f : NNum F C) = .ok (.float f) ∧
+    NNum.unop O "round" (.float f : NNum F C) = .ok (.float f) := by
   simp only [unop_refines, TowerSpec.unop, roundWith, realView]
+  cases hv : O.view f <;> simp_all
+
+/-- **the `int` conversion**: of a finite float (as of an int or a rational) it is the truncation
+of the exact value; of a non-finite float (NaN, ±∞) it RAISES (since /repo commit 48f3e57; before,
+the float came back unchanged and `int(x) is int` could be false) -/
+theorem int_conversion (O : FloatOps F C) (f : F) :
+    (∀ q, O.view f = .fin q → NNum.unop O "int" (.float f : NNum F C) = .ok (.int (trunc q))) ∧
+    ((∀ q, O.view f ≠ .fin q) → NNum.unop O "int" (.float f : NNum F C) = .throw) := by
+  simp only [unop_refines, TowerSpec.unop, realView]
+  refine ⟨fun q hq => by simp [hq], fun h => ?_⟩
   cases hv : O.view f <;> simp
+  exact absurd hv (h _)
+
+/-- `int(x)`, when it returns, returns an int -/
+theorem int_conversion_is_int (O : FloatOps F C) (a r : NNum F C)
+    (h : NNum.unop O "int" a = .ok r) : r.level = 0 := by
+  rw [unop_refines] at h
+  simp only [TowerSpec.unop] at h
+  split at h <;> simp at h
+  subst h; rfl
 
 theorem rounding_complex_throws (O : FloatOps F C) (z : C) :
     NNum.unop O "floor" (.complex z : NNum F C) = .throw ∧
